@@ -53,7 +53,7 @@ def run(repo, res):
     from . import rowspace
 
     res.rule("R04.5", "the moments written to metadata belong to the node whose posterior row they were computed from: anything computed over whole grid rows is assigned to nodes only through the grid's own nonfixed_nodes order, never through a mask / arange (ascending-id order)")
-    rowspace.run(repo, res, "R04.5")
+    rowspace.run(repo, res, "R04.5", scope=["core", "node_time_class"])
     res.rule("R04.1", "single source: the values written as mn/vr metadata and the values returned by node_posteriors()/mutation_posteriors() are pure copies of node_moments()/mutation_moments() (variational) -- through Results by field position and through get_modified_ts -> set_time_metadata with no arithmetic in between; every Results(...) argument comes from the producer matching the field at that position")
     res.rule("R04.2", "typestate of the fit object: no state-changing method of the fit object is called after the first moment extraction in run()")
     res.rule("R04.3", "inside_outside: standardize < force_probability_space(LIN) < to_probabilities < mean_var on the posterior grid and nothing mutating afterwards; to_probabilities divides each row by its sum under a non-negativity assertion; sample rows get (input time, 0)")
